@@ -5,6 +5,7 @@ import json
 
 import sess_checks
 import flow_scen
+import sess_r7
 
 DRIVER = 'drv_C05'
 LEAN_TARGETS = ['NasdaqModel.Props.C05', 'drv_C05']
@@ -13,12 +14,15 @@ LEAN_TARGETS = ['NasdaqModel.Props.C05', 'drv_C05']
 def run(ctx):
     sess_checks.run_family(ctx, 'C05')
     flow_scen.run_flow(ctx, 'C05')
+    sess_r7.run_r7(ctx, 'C05')
 
 
 def replay(ctx, path):
     r = json.load(open(path))
     rep = r.get('replay') or (r.get('no_longer_checks') or [{}])[-1].get('case') or r
-    if isinstance(rep, dict) and 'flow_scenario' in rep:
+    if isinstance(rep, dict) and 'r7_scenario' in rep:
+        sess_r7.replay_r7(ctx, 'C05', rep)
+    elif isinstance(rep, dict) and 'flow_scenario' in rep:
         flow_scen.replay_flow(ctx, 'C05', rep)
     else:
         sess_checks.replay_family(ctx, 'C05', path)
